@@ -33,6 +33,11 @@ def configs(tier, seed=0):
                     variants = ['vecscale', 'scalarscale']
                 for v in variants:
                     out.append({'key': '%s/%s/d%d/%s' % (iface, alg, d, v), 'iface': iface, 'alg': alg, 'dim': d, 'variant': v, 'nf': None})
+                if alg == 'CWMH':
+                    # only the FIRST component's proposal is non-finite; the following components are ordinary
+                    for nf in ['nan', '-inf']:
+                        out.append({'key': '%s/%s/d%d/nonfinite-first-component%s' % (iface, alg, max(d, 2), nf), 'iface': iface, 'alg': alg, 'dim': max(d, 2),
+                                    'variant': 'vecscale', 'nf': nf, 'nf_first_only': True})
                 for nf in ['nan', '-inf', '+inf']:
                     if d > 2:
                         continue
@@ -123,6 +128,14 @@ def run(cfg, c):
             lik = target.likelihood
             old = lik.logpdf_func
             lik.logpdf_func = lambda xx: mc.NONFINITE[nf]
+        elif cfg.get('nf_first_only'):
+            real_logpdf = target.logpdf
+            state = {'n': 0}
+
+            def lp(xx):
+                state['n'] += 1
+                return mc.NONFINITE[nf] if state['n'] == 1 else real_logpdf(xx)
+            target.logpdf = lp
         else:
             target.logpdf = lambda xx: mc.NONFINITE[nf]
 
@@ -189,12 +202,13 @@ def run(cfg, c):
         for j in range(d):
             xs = x_t.copy()
             xs[j] = x[j] + scv[j] * xi[j]
-            Ts = mc.NONFINITE[nf] if nf else mc.T(c, xs)
+            nf_here = bool(nf) and (j == 0 or not cfg.get('nf_first_only'))
+            Ts = mc.NONFINITE[nf] if nf_here else mc.T(c, xs)
             uj = unis[j]['value']
             uj = uj if np.ndim(uj) == 0 else np.asarray(uj).ravel()[0]
             logu = mc.log_u(c, uj)
             a = bool(acc[j] == 1)
-            if nf:
+            if nf_here:
                 c.prove('non-finite proposal never accepted (component %d)' % j, not a, info=fk(cfg, 'nonfinite-u0' if mc.is_nonfinite(logu) else 'nonfinite'))
             else:
                 accept_obligations(c, cfg, a, logu, minlog0(Ts - T_t), ' (component %d)' % j)
